@@ -135,7 +135,7 @@ def run(ctx):
     wconsts = {"N": 2, "MaxReps": 2}
     for w in WITNESSES:
         wcfg = tlc.write_cfg(os.path.join(ctx.scratch, w + ".cfg"), constants=wconsts, invariants=[w], deadlock=False)
-        wres = tlc.check_model("TokenAware", wcfg, ctx.scratch, timeout=600)
+        wres = tlc.check_model("TokenAware", wcfg, ctx.scratch, timeout=600, workers=2, heap="1g")
         if wres.invariant != w:
             raise tlc.MachineryError("vacuity witness %s was not reached" % w)
     ctx.note("vacuity_witnesses_reached", len(WITNESSES))
